@@ -91,13 +91,13 @@ func c01JavaConstructs(thorough bool) [][]byte {
 	return out
 }
 
-func c01GenJava(c *Ctx, r *Rng, add func(kind, name string, data []byte)) {
+// c01SealedObjectFields: the serialized SealedObjectForKeyProtector that keytool writes for a secret key, as fields.
+func c01SealedObjectFields(r *Rng, constructs [][]byte) []c01F {
 	str := func(name, s string) c01F {
 		return fStr16(name, []byte(s), []byte(""), []byte("[B"), []byte("["), []byte("\xc0\x80"), []byte(strings.Repeat("n", 65535)))
 	}
 	params := c01Seq(c01Oct(r.Bytes(8)), c01SmallInt(200000))
 	content := r.Bytes(152)
-	constructs := c01JavaConstructs(c.Thorough())
 	val := func(name string, enc []byte) c01F { f := fRaw(name, enc); f.special = constructs; return f }
 	fs := []c01F{fRaw("magic", []byte{0xac, 0xed}), {name: "version", kind: 'h', v: 5}, c01TC("object-tc", 0x73),
 		c01TC("class-tc", 0x72), str("class-name", "com.sun.crypto.provider.SealedObjectForKeyProtector"), fU64("class-uid", 0xcd57ca59e730bb53), {name: "class-flags", kind: 'b', v: 2}, {name: "class-field-count", kind: 'h', v: 0}, c01TC("class-annotation-end", 0x78),
@@ -111,6 +111,12 @@ func c01GenJava(c *Ctx, r *Rng, add func(kind, name string, data []byte)) {
 		c01TC("array1-class-annotation-end", 0x78), c01TC("array1-class-super-tc", 0x70), fU32("array1-count", uint32(len(params))), fRaw("array1-octets", params),
 		c01TC("array2-tc", 0x75), c01TC("array2-class-tc", 0x71), fU32("array2-class-handle", 0x7e0005, c01Handles...), fU32("array2-count", uint32(len(content))), fRaw("array2-octets", content),
 		val("params-alg", c01Cat([]byte{0x74}, c01U16(22), []byte("PBEWithMD5AndTripleDES"))), val("seal-alg", c01Cat([]byte{0x74}, c01U16(22), []byte("PBEWithMD5AndTripleDES")))}
+	return fs
+}
+
+func c01GenJava(c *Ctx, r *Rng, add func(kind, name string, data []byte)) {
+	constructs := c01JavaConstructs(c.Thorough())
+	fs := c01SealedObjectFields(r, constructs)
 	add("jks-serialization-genuine:java", "k.jceks", c01JCE(c01Enc(fs)))
 	for _, v := range c01FieldVariants("jks-serialization", fs) {
 		add(v.tag+":java", "k.jceks", c01JCE(v.data))
